@@ -99,6 +99,20 @@ Theorem C08_update_per_address_limit_bounds : forall vr s e fp wv l s' ms,
   s_pal s' = l /\ ms = [].
 Proof. exact update_pal_bounds. Qed.
 
+(* ... for every minter family: admin only, no funds, 1..=max with the parameters in force,
+   and the 3%-of-supply rule on the (non-flex) vending and the token-merge minters *)
+Theorem C08_update_per_address_limit_all_families : forall k flex adm nof l n maxpal r,
+  update_pal k flex adm nof l n maxpal = Ok r ->
+  r = l /\ adm = true /\ nof = true /\ 1 <= l <= maxpal /\ k <> FBase /\
+  ((k = FTokenMerge \/ (k = FVending /\ flex = false)) -> check_dynamic_pal l n maxpal = true).
+Proof. exact update_pal_ok_bounds. Qed.
+
+Theorem C08_update_per_address_limit_rule_is_vending_handler : forall vr s e fp wv l,
+  is_ok (step vr s e fp wv (OUpdatePerAddressLimit l)) =
+  is_ok (update_pal FVending (v_flex vr) (is_admin_sender s e)
+                    (match e_funds e with [] => true | _ => false end) l (s_num_tokens s) (fp_max_per_address fp)).
+Proof. exact update_pal_is_vending_step. Qed.
+
 (* success: exactly one new minter and one new collection, wired to each other and to
    this factory, administered by the creator named in the request *)
 Theorem C08_wiring : forall k self p now sender funds r nm c,
@@ -140,5 +154,7 @@ Print Assumptions C08_three_percent_rule.
 Print Assumptions C08_vending_minter_init.
 Print Assumptions C08_trading_at_creation.
 Print Assumptions C08_update_per_address_limit_bounds.
+Print Assumptions C08_update_per_address_limit_all_families.
+Print Assumptions C08_update_per_address_limit_rule_is_vending_handler.
 Print Assumptions C08_wiring.
 Print Assumptions C08_world_fee_bounds.
